@@ -97,6 +97,7 @@ type Task struct {
 	lockDepth  int     // library locks currently held by the task: no inner yields while > 0
 	inner      bool    // parked at an inner point (inside a library call)
 	stallUntil int     // not runnable before this step (stall fault), unless everybody is stalled
+	at         int     // id of the library statement the task is parked before (inner points)
 	blocked    bool    // last yield was Blocked(): waiting for a lock, channel, timer or flag
 	root       bool    // registered by the harness (joined at the end); false = started by the library
 	started    bool    // goroutine already created (tasks the library started)
@@ -150,6 +151,9 @@ type Sim struct {
 	Tracing     bool
 	trace       []traceRec
 	SiteNames   []string
+	PointNames  []string // id -> "file:line statement" of the library statements (from the rewriter)
+	Preempted   []bool   // by point id: an inner pre-emption happened right before that statement
+	Executed    []bool   // by point id: the statement was reached by a simulated task
 	progress    atomic.Int64
 }
 
@@ -334,7 +338,15 @@ func (t *Task) Sim() *Sim { return t.sim }
 // library lock (yielding there could park the lock's owner for ever).
 //
 //go:norace
-func Point() {
+func Point() { PointAt(0) }
+
+// PointAt is Point with the identity of the statement it stands before (ids
+// are assigned by the rewriter, 1-based; 0 = a harness loop). The identity is
+// used for traces and for the reach measure "which library statements were
+// pre-empted at least once".
+//
+//go:norace
+func PointAt(id int) {
 	s := cur
 	if s == nil {
 		return
@@ -344,6 +356,12 @@ func Point() {
 		return
 	}
 	s.pointsInStep++
+	if id > 0 {
+		if id >= len(s.Executed) {
+			s.growExecuted(id)
+		}
+		s.Executed[id] = true
+	}
 	if s.pointsInStep > spinLimit && t.lockDepth == 0 {
 		// The task has executed a very large number of statements without
 		// yielding: a spin-wait on something a parked task must change.
@@ -351,6 +369,7 @@ func Point() {
 		s.Counters[CtSpinBreaks]++
 		t.blocked = true
 		t.inner = true
+		t.at = id
 		t.yield(t.parked)
 		return
 	}
@@ -365,7 +384,33 @@ func Point() {
 	s.Counters[CtInnerYields]++
 	t.inner = true
 	t.blocked = false
+	t.at = id
+	s.markPreempted(id)
 	t.yield(t.parked)
+}
+
+//go:norace
+func (s *Sim) growExecuted(id int) {
+	bigger := make([]bool, 2*id+64)
+	for i := 0; i < len(s.Executed); i++ {
+		bigger[i] = s.Executed[i]
+	}
+	s.Executed = bigger
+}
+
+//go:norace
+func (s *Sim) markPreempted(id int) {
+	if id <= 0 {
+		return
+	}
+	if id >= len(s.Preempted) {
+		bigger := make([]bool, 2*id+64)
+		for i := 0; i < len(s.Preempted); i++ {
+			bigger[i] = s.Preempted[i]
+		}
+		s.Preempted = bigger
+	}
+	s.Preempted[id] = true
 }
 
 // Blocked is called inside the cooperative wait loops that the rewriter
@@ -465,6 +510,17 @@ func (s *Sim) startTask(name string, fn func()) {
 	}
 	s.Counters[CtSpawned]++
 	go t.main()
+}
+
+//go:norace
+func (s *Sim) pointName(id int) string {
+	if id > 0 && id < len(s.PointNames) {
+		return s.PointNames[id]
+	}
+	if id == 0 {
+		return "the next sample (harness loop)"
+	}
+	return "a library statement"
 }
 
 //go:norace
@@ -675,7 +731,7 @@ func (s *Sim) Run(estSteps int) {
 			case t.blocked:
 				s.Tracef("step %d: task %d (%s) retries the operation it is blocked in (inside %s)", s.step, t.ID, t.Name, s.siteName(t.parked))
 			case t.inner:
-				s.Tracef("step %d: task %d (%s) continues inside %s (pre-empted at an inner point)", s.step, t.ID, t.Name, s.siteName(t.parked))
+				s.Tracef("step %d: task %d (%s) continues inside %s, where it was pre-empted before %s", s.step, t.ID, t.Name, s.siteName(t.parked), s.pointName(t.at))
 			default:
 				s.Tracef("step %d: task %d (%s) runs %s", s.step, t.ID, t.Name, s.siteName(t.parked))
 			}
